@@ -22,7 +22,7 @@ LitClasses    == IF Q THEN {0, 1, 14, 15, 270} ELSE {0, 1, 14, 15, 16, 269, 270,
 MatchClasses  == IF Q THEN {4, 18, 19, 274} ELSE {4, 5, 18, 19, 20, 273, 274, 529}
 FinalLits     == IF Q THEN {0, 5} ELSE {0, 1, 5, 16}
 DstDeltas     == IF Q THEN {0, 0 - 1, 64} ELSE {0, 0 - 1, 1, 64}
-Lit2Classes   == IF Q THEN {0, 15} ELSE {0, 1, 15, 270}
+Lit2Classes   == IF Q THEN {0, 3, 15} ELSE {0, 1, 3, 15, 270}
 Match2Classes == IF Q THEN {4, 19} ELSE {4, 18, 19, 274}
 PosTails      == 0 .. 48
 PosLits       == IF Q THEN {1, 8, 13, 14, 15, 20} ELSE {0, 1, 7, 8, 9, 13, 14, 15, 16, 20, 47, 48, 49}
@@ -84,8 +84,9 @@ Level2 ==
           /\ \E m \in MatchClasses, off \in OffsetClasses(c.lit, c.dl), fin \in FinalLits, dd \in DstDeltas :
                c' = [shape |-> 1, dl |-> c.dl, lit |-> c.lit, off |-> off, m |-> m, fin |-> fin, dd |-> dd]
        \/ /\ c.shape = 2
-          /\ \E m1 \in {4, 19}, off1 \in {o \in {1, c.lit + c.dl} : o >= 1 /\ o <= 65535},
-               lit2 \in Lit2Classes, m \in Match2Classes, fin \in {0, 5}, dd \in DstDeltas :
+          /\ \E m1 \in {4, 19},
+               off1 \in {o \in {1, c.lit + 1, c.lit + c.dl} : o >= 1 /\ o <= c.lit + c.dl /\ o <= 65535},
+               lit2 \in Lit2Classes, m \in Match2Classes, fin \in {0, 5, 64}, dd \in DstDeltas :
                \E off \in OffsetClasses(c.lit + m1 + lit2, c.dl) :
                  c' = [shape |-> 2, dl |-> c.dl, lit |-> c.lit, off1 |-> off1, m1 |-> m1,
                        lit2 |-> lit2, off |-> off, m |-> m, fin |-> fin, dd |-> dd]
